@@ -23,6 +23,7 @@
     7  `tokenize_progress` (`tokLoop_spec`, `tokenize_spec`)
     8  non-vacuity examples
     9  C11: `fence_verbatim`, `indented_verbatim`
+   10  C14: `list_shape`
 -/
 import MdIt.Model.Block
 import MdIt.Props.C10
@@ -1988,13 +1989,13 @@ theorem codeScan_verbatim (hs : OnDoc (T.map (four ++ ·)) s) (hmax : s.lineMax 
       exact ih (j + 1) (j + 1) (by omega) (fun _ => by omega)
 end code
 
-/-- **`indented_verbatim`.**  `T` is a non-empty list of terminator-free lines whose first and last
-    line are not blank.  On the document made of the lines of `T`, each behind four spaces, the
+/-- **`indented_verbatim`.**  `T` is a non-empty list of terminator-free lines whose last line is
+    not blank (nor is the first, when the tokenizer runs the rule: it skips blank lines first; the rule
+    itself does not need that).  On the document made of the lines of `T`, each behind four spaces, the
     indented-code rule (at the start of the document) answers `true`, consumes every line, and the
     content of the node is `T` joined by LF plus one final LF — interior blank lines, tabs and further
     indentation included. -/
 theorem indented_verbatim (T : List (List Char)) (hne : T ≠ []) (hT : ∀ l ∈ T, NoTerm l)
-    (hfirst : ∀ h : 0 < T.length, T[0].dropWhile Lines.isBlank ≠ [])
     (hlastT : ∀ h : 0 < T.length, (T[T.length - 1]'(by omega)).dropWhile Lines.isBlank ≠ [])
     (k : Kind) (refs : Refs.RefMap) :
     ∃ s' r, codeRule (BState.fresh (docOf (T.map (four ++ ·))) k refs) false = .ok (true, s') ∧
@@ -2139,6 +2140,387 @@ example : closes '`' 3 [' ', '`', '`', '`', ' '] = true := by decide
 example : ∃ s' r, codeRule (BState.fresh (docOf ([['a'], [], ['\t', 'b']].map (four ++ ·))) .root []) false
       = .ok (true, s') ∧ s'.line = 3 ∧ s'.line = s'.lineMax ∧
     s'.children = [⟨.codeBlock (['a', '\n', '\n', '\t', 'b'] ++ ['\n']), some r, []⟩] :=
-  indented_verbatim [['a'], [], ['\t', 'b']] (by decide) (by decide) (by decide) (by decide) .root []
+  indented_verbatim [['a'], [], ['\t', 'b']] (by decide) (by decide) (by decide) .root []
+
+/-! ## 10. `list_shape`: list items are exactly the children of lists -/
+
+/-- the local condition on a node of kind `k` with children `cs`: a list has only list items as
+    children, and a list item has a list as parent -/
+def ShapeAt (k : Kind) (cs : List BNode) : Prop :=
+  (isListKind k = true → ∀ c ∈ cs, c.kind = .listItem) ∧
+  (∀ c ∈ cs, c.kind = .listItem → isListKind k = true)
+
+/-- the condition holds at every node of the tree -/
+inductive Shaped : BNode → Prop
+  | mk (n : BNode) : ShapeAt n.kind n.children → (∀ c ∈ n.children, Shaped c) → Shaped n
+
+theorem Shaped.at {n : BNode} (h : Shaped n) : ShapeAt n.kind n.children := by cases h; assumption
+theorem Shaped.child {n : BNode} (h : Shaped n) : ∀ c ∈ n.children, Shaped c := by cases h; assumption
+
+/-- a node that may be pushed into a non-list node: well shaped and not a list item -/
+def Good (c : BNode) : Prop := c.kind ≠ .listItem ∧ Shaped c
+
+def AllGood (cs : List BNode) : Prop := ∀ c ∈ cs, Good c
+
+theorem AllGood.nil : AllGood [] := fun _ h => by simp at h
+
+theorem AllGood.push {cs : List BNode} {n : BNode} (h : AllGood cs) (hn : Good n) : AllGood (cs ++ [n]) := by
+  intro c hc
+  rcases List.mem_append.mp hc with h1 | h1
+  · exact h c h1
+  · simp at h1; subst h1; exact hn
+
+/-- a node whose kind is not a list kind, over good children, is well shaped -/
+theorem shaped_of_allGood {k : Kind} {r : Option (Nat × Nat)} {cs : List BNode} (hk : isListKind k = false)
+    (h : AllGood cs) : Shaped ⟨k, r, cs⟩ :=
+  .mk _ ⟨fun hc => by simp [hk] at hc, fun c hc hci => absurd hci (h c hc).1⟩ (fun c hc => (h c hc).2)
+
+theorem good_leaf (k : Kind) (r : Option (Nat × Nat)) (hk : isListKind k = false) (hi : k ≠ .listItem) :
+    Good ⟨k, r, []⟩ := ⟨hi, shaped_of_allGood hk AllGood.nil⟩
+
+theorem good_inline (c : List Char) (m : List (Nat × Nat)) : Good ⟨.inlineRoot c m, none, []⟩ :=
+  good_leaf _ _ rfl (by simp)
+
+/-- a block with one inline root -/
+theorem good_block (k : Kind) (r : Option (Nat × Nat)) (hk : isListKind k = false) (hi : k ≠ .listItem)
+    (c : List Char) (m : List (Nat × Nat)) : Good ⟨k, r, [⟨.inlineRoot c m, none, []⟩]⟩ :=
+  ⟨hi, shaped_of_allGood hk (fun x hx => by simp at hx; subst hx; exact good_inline c m)⟩
+
+/-- what a rule / the tokenizer does to the children of the current node -/
+def KeepsGood (s s' : BState) : Prop := AllGood s.children → AllGood s'.children
+
+theorem hr_shape {s s' : BState} {b : Bool} (h : hrRule s false = .ok (b, s')) : KeepsGood s s' := by
+  unfold hrRule at h
+  crack h
+  all_goals (try subst_vars)
+  all_goals (intro hg)
+  all_goals (first | exact hg | exact hg.push (good_leaf _ _ rfl (by simp)))
+
+theorem heading_shape {s s' : BState} {b : Bool} (h : headingRule s false = .ok (b, s')) : KeepsGood s s' := by
+  unfold headingRule at h
+  crack h
+  all_goals (try subst_vars)
+  all_goals (intro hg)
+  all_goals (first | exact hg | exact hg.push (good_block _ _ rfl (by simp) _ _))
+
+theorem code_shape {s s' : BState} {b : Bool} (h : codeRule s false = .ok (b, s')) : KeepsGood s s' := by
+  unfold codeRule at h
+  crack h
+  all_goals (try subst_vars)
+  all_goals (intro hg)
+  all_goals (first | exact hg | exact hg.push (good_leaf _ _ rfl (by simp)))
+
+theorem fence_shape {s s' : BState} {b : Bool} (h : fenceRule s false = .ok (b, s')) : KeepsGood s s' := by
+  unfold fenceRule at h
+  crack h
+  all_goals (try subst_vars)
+  all_goals (intro hg)
+  all_goals (first | exact hg | exact hg.push (good_leaf _ _ rfl (by simp)))
+
+theorem paragraph_shape {test : Test} (ht : TestPure test) {fuel : Nat} {s s' : BState} {b : Bool}
+    (h : paragraphRule test fuel s false = .ok (b, s')) : KeepsGood s s' := by
+  unfold paragraphRule at h
+  crack h
+  have h1 := (lazyScan_spec ht false _ _ _ _ ‹lazyScan _ _ _ _ _ = _›).1
+  intro hg
+  simp only [BState.push, h1]
+  exact hg.push (good_block _ _ rfl (by simp) _ _)
+
+theorem lheading_shape {test : Test} (ht : TestPure test) {fuel : Nat} {s s' : BState} {b : Bool}
+    (h : lheadingRule test fuel s false = .ok (b, s')) : KeepsGood s s' := by
+  unfold lheadingRule at h
+  crack h
+  all_goals (try (have h1 := (lazyScan_spec ht true _ _ _ _ ‹lazyScan _ _ _ _ _ = _›).1))
+  all_goals (try subst_vars)
+  all_goals (intro hg)
+  all_goals (first | exact hg | exact hg.push (good_block _ _ rfl (by simp) _ _))
+
+theorem reference_shape {cfg : Cfg} {test : Test} (ht : TestPure test) {fuel : Nat} {s s' : BState} {b : Bool}
+    (h : referenceRule cfg test fuel s false = .ok (b, s')) : KeepsGood s s' := by
+  unfold referenceRule at h
+  crack h
+  all_goals (try (have h1 := (lazyScan_spec ht false _ _ _ _ ‹lazyScan _ _ _ _ _ = _›).1))
+  all_goals (try subst_vars)
+  all_goals (intro hg)
+  all_goals (first | exact hg | (rw [h1]; exact hg) | (simp only [h1]; exact hg))
+
+/-- the nested tokenizer keeps the children of its current node good -/
+def TokShape (tok : Tok) : Prop := ∀ s s', tok s = .ok s' → KeepsGood s s'
+
+theorem bqScan_children {test : Test} (ht : TestPure test) {fuel : Nat} {S : BState} {m : Nat}
+    {old : List LineOffset} {le : Bool} {n : Nat} {old' : List LineOffset} {S' : BState}
+    (h : bqScan test fuel S m old le = .ok (n, old', S')) : S'.children = S.children ∧ S'.nodeKind = S.nodeKind :=
+  have := (bqScan_spec ht _ _ _ _ _ _ _ _ h).1
+  ⟨this.children, this.nodeKind⟩
+
+theorem blockquote_shape {tok : Tok} {test : Test} (hk : TokSpec tok) (hsh : TokShape tok)
+    (ht : TestPure test) {fuel : Nat} {s s' : BState} {b : Bool}
+    (h : blockquoteRule tok test fuel s false = .ok (b, s')) : KeepsGood s s' := by
+  unfold blockquoteRule at h
+  crack h
+  all_goals (try subst_vars)
+  · exact fun hg => hg
+  · exact fun hg => hg
+  · have hscan := ‹bqScan _ _ _ _ _ _ = _›
+    have htok := ‹tok _ = _›
+    rename_i scan _ s2 _ _ _ _ _ _ _ _ _
+    obtain ⟨n, old', S'⟩ := scan
+    obtain ⟨hch, _⟩ := bqScan_children ht hscan
+    have hfr := hk.frame _ _ htok
+    have hg2 := hsh _ _ htok AllGood.nil
+    intro hg
+    simp only at hch hfr hg2 ⊢
+    rw [hch]
+    refine hg.push ⟨by rw [hfr.nodeKind]; simp, ?_⟩
+    rw [hfr.nodeKind]
+    exact shaped_of_allGood rfl hg2
+
+/-- `mark_tight_paragraphs` keeps good children good: the children of a well-shaped paragraph are -/
+theorem markTight_good : ∀ (cs : List BNode), AllGood cs → AllGood (markTight cs)
+  | [], _ => AllGood.nil
+  | n :: r, h => by
+    have hr := markTight_good r (fun c hc => h c (List.mem_cons_of_mem _ hc))
+    have hn := h n (by simp)
+    simp only [markTight]
+    split
+    · rename_i hp
+      intro c hc
+      rcases List.mem_append.mp hc with h1 | h1
+      · refine ⟨fun hci => ?_, hn.2.child c h1⟩
+        have := hn.2.at.2 c h1 hci
+        rw [hp] at this
+        simp [isListKind] at this
+      · exact hr c h1
+    · intro c hc
+      simp at hc
+      rcases hc with rfl | h1
+      · exact hn
+      · exact hr c h1
+
+/-- the children of a list under construction: list items, each well shaped -/
+def AllItems (cs : List BNode) : Prop := ∀ c ∈ cs, c.kind = .listItem ∧ Shaped c
+
+theorem tightenItems_items : ∀ (cs cs' : List BNode), tightenItems cs = .ok cs' → AllItems cs → AllItems cs'
+  | [], cs', h, _ => by simp [tightenItems] at h; subst h; exact fun _ hc => by simp at hc
+  | c :: r, cs', h, hi => by
+    simp only [tightenItems] at h
+    split at h
+    · cases h
+    · split at h
+      · cases h
+      · rename_i hk r' hr
+        cases h
+        have ih := tightenItems_items r r' hr (fun x hx => hi x (List.mem_cons_of_mem _ hx))
+        obtain ⟨hck, hcs⟩ := hi c (by simp)
+        intro x hx
+        simp at hx
+        rcases hx with rfl | hx
+        · refine ⟨hck, ?_⟩
+          have hgood : AllGood c.children := fun y hy =>
+            ⟨fun hyi => by have := hcs.at.2 y hy hyi; rw [hck] at this; simp [isListKind] at this,
+             hcs.child y hy⟩
+          rw [hck]
+          exact shaped_of_allGood rfl (markTight_good _ hgood)
+        · exact ih x hx
+
+theorem listItemBody_shape {tok : Tok} (hsh : TokShape tok) {S2 S3 : BState} {m : Nat} {re : Bool}
+    (h : listItemBody tok S2 m re = .ok S3) : KeepsGood S2 S3 := by
+  unfold listItemBody at h
+  crack h
+  · exact fun hg => hg
+  · have htok := ‹tok _ = _›
+    subst_vars
+    have key := hsh _ _ htok
+    intro hg
+    exact key hg
+
+theorem listItem_shape {tok : Tok} (hk : TokSpec tok) (hsh : TokShape tok) {S S' : BState} {m pos : Nat}
+    {pee tight pee' tight' : Bool} (h : listItem tok S m pos pee tight = .ok (S', tight', pee'))
+    (hline : S.line = m) (hlt : m < S.lineMax) :
+    AllItems S.children → AllItems S'.children := by
+  have hspec := listItem_spec hk h hline hlt
+  unfold listItem at h
+  crack h
+  rename_i o ho rw hrw S2 hS2 S3 hbody _ li hli S5 hS5 e _ r _ hS' _ _
+  subst hS'
+  obtain ⟨hm, hS2eq⟩ := setOff_ok hS2
+  obtain ⟨hm5, rfl⟩ := setOff_ok hS5
+  have hg3 := listItemBody_shape hsh hbody (by rw [hS2eq]; exact AllGood.nil)
+  -- the kind of the node under construction is still `listItem`
+  have hkind : S3.nodeKind = .listItem := by
+    unfold listItemBody at hbody
+    crack hbody
+    · rw [hS2eq]
+    · have := (hk.frame _ _ ‹tok _ = _›).nodeKind
+      simp only at this ⊢
+      rw [this, hS2eq]
+  intro hi c hc
+  simp only at hc
+  rcases List.mem_append.mp hc with h1 | h1
+  · exact hi c h1
+  · simp at h1
+    subst h1
+    simp only
+    rw [hkind]
+    exact ⟨rfl, shaped_of_allGood rfl hg3⟩
+
+theorem listLoop_shape {tok : Tok} {test : Test} (hk : TokSpec tok) (hsh : TokShape tok) (ht : TestPure test)
+    {ordered : Bool} {mc : Char} :
+    ∀ (fuel : Nat) (S : BState) (m pos : Nat) (pee tight : Bool) (n : Nat) (tight' : Bool) (S' : BState),
+      listLoop tok test ordered mc fuel S m pos pee tight = .ok (n, tight', S') →
+      S.line = m → m < S.lineMax → AllItems S.children → AllItems S'.children := by
+  intro fuel
+  induction fuel with
+  | zero => intro S m pos pee tight n tight' S' h; simp [listLoop] at h
+  | succ f ih =>
+    intro S m pos pee tight n tight' S' h hline hlt hi
+    simp only [listLoop] at h
+    crack h
+    all_goals (try subst_vars)
+    · rename_i wi wc hc _ hnone _ hitem
+      obtain ⟨S1, t1, p1⟩ := wi
+      obtain ⟨c, S2⟩ := wc
+      obtain ⟨rfl, _⟩ := listContinue_spec ht hc
+      exact listItem_shape hk hsh hitem rfl hlt hi
+    · rename_i wi wc hc _ p hsome _ hitem
+      obtain ⟨S1, t1, p1⟩ := wi
+      obtain ⟨c, S2⟩ := wc
+      obtain ⟨hfr, h1, h2⟩ := listItem_spec hk hitem rfl hlt
+      obtain ⟨rfl, hc2⟩ := listContinue_spec ht hc
+      simp only at hsome h hc2
+      have hlt2 := hc2 (by rw [hsome]; simp)
+      exact ih _ _ _ _ _ _ _ _ h rfl hlt2 (listItem_shape hk hsh hitem rfl hlt hi)
+
+theorem list_rule_shape {tok : Tok} {test : Test} (hk : TokSpec tok) (hsh : TokShape tok) (ht : TestPure test)
+    {fuel : Nat} {s s' : BState} {b : Bool} (h : listRule tok test fuel s false = .ok (b, s'))
+    (hl : s.line < s.lineMax) : KeepsGood s s' := by
+  unfold listRule at h
+  crack h
+  all_goals (try subst_vars)
+  all_goals (try (exact fun hg => hg))
+  all_goals (
+    have hloop := ‹listLoop _ _ _ _ _ _ _ _ _ _ = _›
+    have htight := ‹(if _ then tightenItems _ else _) = Except.ok _›
+    rename_i wl _ cs _ _ _ _ _ _ _
+    obtain ⟨n, t, S'⟩ := wl
+    have hitems := listLoop_shape hk hsh ht _ _ _ _ _ _ _ _ _ hloop rfl hl (fun _ hc => by simp at hc)
+    obtain ⟨hfr, _⟩ := listLoop_spec hk ht _ _ _ _ _ _ _ _ _ hloop rfl hl
+    have hcs : AllItems cs := by
+      simp only at htight
+      split at htight
+      · exact tightenItems_items _ _ htight hitems
+      · simp [pure, Except.pure] at htight; subst htight; exact hitems
+    intro hg
+    simp only
+    refine hg.push ⟨?_, .mk _ ⟨fun _ c hc => (hcs c hc).1, fun c hc _ => ?_⟩ (fun c hc => (hcs c hc).2)⟩
+    · rw [hfr.nodeKind]; simp
+    · simp only; rw [hfr.nodeKind]; rfl)
+
+theorem runRule_shape {cfg : Cfg} {tok : Tok} {test : Test} (hk : TokSpec tok) (hsh : TokShape tok)
+    (ht : TestPure test) (fuel : Nat) (r : RuleId) {s s' : BState} {b : Bool}
+    (h : runRule cfg tok test fuel r s false = .ok (b, s')) (hl : s.line < s.lineMax) : KeepsGood s s' := by
+  cases r <;> simp only [runRule] at h
+  · exact code_shape h
+  · exact fence_shape h
+  · exact blockquote_shape hk hsh ht h
+  · exact hr_shape h
+  · exact list_rule_shape hk hsh ht h hl
+  · exact reference_shape ht h
+  · exact heading_shape h
+  · exact lheading_shape ht h
+  · exact paragraph_shape ht h
+
+theorem runChain_shape {run : RuleId → BState → Bool → Res} (hr : RunSpec run)
+    (hsh : ∀ r s b s', run r s false = .ok (b, s') → s.line < s.lineMax → KeepsGood s s') :
+    ∀ (chain : List RuleId) (s : BState) (b : Bool) (s' : BState),
+      runChain run chain s false = .ok (b, s') → s.line < s.lineMax → KeepsGood s s' := by
+  intro chain
+  induction chain with
+  | nil => intro s b s' h _; simp [runChain] at h; rw [← h.2]; exact fun hg => hg
+  | cons r rs ih =>
+    intro s b s' h hl
+    simp only [runChain] at h
+    split at h
+    · cases h
+    · rename_i s1 h1
+      cases h
+      exact hsh _ _ _ _ h1 hl
+    · rename_i s1 h1
+      have := hr.false_same _ _ _ h1
+      subst this
+      exact ih _ _ _ h hl
+
+theorem afterChain_shape {ok : Bool} {s s' : BState} {prev : Nat} (h : afterChain ok s prev = .ok s') :
+    KeepsGood s s' := by
+  unfold afterChain at h
+  crack h
+  · exact fun hg => hg
+  · intro hg
+    simp only [BState.push]
+    exact hg.push (good_inline _ _)
+
+theorem tokLoop_shape {cfg : Cfg} {run : RuleId → BState → Bool → Res} (hr : RunSpec run)
+    (hsh : ∀ r s b s', run r s false = .ok (b, s') → s.line < s.lineMax → KeepsGood s s') :
+    ∀ (fuel : Nat) (he : Bool) (s s' : BState), tokLoop cfg run fuel he s = .ok s' → KeepsGood s s' := by
+  intro fuel
+  induction fuel with
+  | zero => intro he s s' h; simp [tokLoop] at h
+  | succ f ih =>
+    intro he s s' h
+    simp only [tokLoop] at h
+    crack h
+    all_goals (try subst_vars)
+    all_goals (try (exact fun hg => hg))
+    all_goals (
+      have hchain := ‹runChain _ _ _ _ = _›
+      have hafter := ‹afterChain _ _ _ = _›
+      have h1 := runChain_shape hr hsh _ _ _ _ hchain (by simp; omega)
+      have h2 := afterChain_shape hafter
+      have h3 := ih _ _ _ h
+      exact fun hg => h3 (h2 (h1 hg)))
+
+/-- the tokenizer pushes only well-shaped nodes that are not list items -/
+theorem tokenize_shape (cfg : Cfg) : ∀ fuel : Nat, TokShape (tokenize cfg fuel) := by
+  intro fuel
+  induction fuel with
+  | zero => intro s s' h; simp [tokenize, engine] at h
+  | succ f ih =>
+    intro s s' h
+    simp only [tokenize, engine] at h
+    have hk := tokenize_tokSpec cfg f
+    have ht := testRules_pure cfg f
+    exact tokLoop_shape (runRule_spec hk ht _)
+      (fun r s b s' h hl => runRule_shape hk ih ht _ r h hl) _ _ _ _ h
+
+/-- **`list_shape`.**  In every tree the block parser returns, a list node (`BulletList` /
+    `OrderedList`) has only `ListItem` children, and a `ListItem` occurs only as a child of a list node
+    (`Shaped`: `ShapeAt` holds at every node).  In particular the `debug_assert!(child.is::<ListItem>())`
+    of the list rule cannot fire, and `mark_tight_paragraphs` never moves a list item out of its list. -/
+theorem list_shape {cfg : Cfg} {src : List Char} {root : BNode} {refs : Refs.RefMap}
+    (h : parseBlocks cfg src = .ok (root, refs)) : Shaped root := by
+  unfold parseBlocks at h
+  split at h
+  · cases h
+  · rename_i s hs
+    simp only [Except.ok.injEq, Prod.mk.injEq] at h
+    obtain ⟨rfl, _⟩ := h
+    have hfr := (tokenize_spec cfg _ _ _ hs).frame
+    have hg := tokenize_shape cfg _ _ _ hs AllGood.nil
+    have hk : s.nodeKind = .root := hfr.nodeKind
+    rw [hk]
+    exact shaped_of_allGood rfl hg
+
+/-- the two halves of `ShapeAt`, for any node `n` of a parsed tree reached through `Shaped.child` -/
+theorem Shaped.list_children {n : BNode} (h : Shaped n) (hk : isListKind n.kind = true) :
+    ∀ c ∈ n.children, c.kind = .listItem := h.at.1 hk
+
+theorem Shaped.item_parent {n : BNode} (h : Shaped n) {c : BNode} (hc : c ∈ n.children)
+    (hi : c.kind = .listItem) : isListKind n.kind = true := h.at.2 c hc hi
+
+/-- `"- a\n- b\n\n1. c"`: two lists, three items, nothing else is an item -/
+example : (parseBlocks exCfg ['-', ' ', 'a', '\n', '-', ' ', 'b', '\n', '\n', '1', '.', ' ', 'c']).toOption.map
+      (fun p => p.1.children.map fun n => (n.kind, n.children.map (·.kind)))
+    = some [(.bulletList '-', [.listItem, .listItem]), (.orderedList 1 '.', [.listItem])] := by
+  decide +kernel
 
 end MdIt.Block
